@@ -10,6 +10,7 @@ pub mod c06;
 pub mod c07;
 pub mod c08;
 pub mod c09;
+pub mod c10;
 pub mod c11;
 pub mod c12;
 pub mod c13;
@@ -38,6 +39,7 @@ pub fn all() -> Vec<Prop> {
         Prop { id: "C07", run: c07::run, replay: c07::replay, rule: c07::RULE, assumptions: &["trees are well-formed by construction (accurate /Count, correct /Parent, acyclic)"] },
         Prop { id: "C08", run: c08::run, replay: c08::replay, rule: c08::RULE, assumptions: &["the expansion table in harness/src/props/c08.rs is my reading of ISO 32000-1 Table A.1 (DESIGN.md Appendix B)"] },
         Prop { id: "C09", run: c09::run, replay: c09::replay, rule: c09::RULE, assumptions: &["objects that loading itself reads (catalog-level typed fields, info dictionary, page-tree root) are not overwritten with arbitrary values: that would make the file invalid rather than test the property", "saved bytes are obtained through File::save_to on a scratch file under /verif/work"] },
+        Prop { id: "C10", run: c10::run, replay: c10::replay, rule: c10::RULE, assumptions: &["the structural check is my strict reader's reading of ISO 32000-1 7.5", "operation equality is C08's structural description"] },
         Prop { id: "C11", run: c11::run, replay: c11::replay, rule: c11::RULE, assumptions: &["object streams and filters are produced by the harness's own writer and encoders"] },
         Prop { id: "C12", run: c12::run, replay: c12::replay, rule: c12::RULE, assumptions: &["outcomes are compared as digests of canonical values or root-cause error kinds (wrappers Try/Shared/FromPrimitive peeled)"] },
         Prop { id: "C14", run: c14::run, replay: c14::replay, rule: c14::RULE, assumptions: &["same oracle and resource bound as C01", "fragments are written by the harness writer, so the syntax is always valid"] },
